@@ -413,7 +413,19 @@ impl CoreDocument {
     //
     // NOTE: this check cannot be relied upon if the document contains methods or services whose ids are
     // of the form <did different from this document's>#<fragment>.
-    if self.resolve_method(method.id(), None).is_some() || self.service().query(method.id()).is_some() {
+    if self.resolve_method(method.id(), None).is_some()
+      || self.all_methods().any(|existing| existing.id() == method.id())
+      || self.service().query(method.id()).is_some()
+    {
+      return Err(Error::MethodInsertionError);
+    }
+    // A method embedded in a verification relationship must not share its id with a reference: an existing
+    // (dangling or foreign) reference with this id would alias it, or block the insertion in its own set.
+    if scope != MethodScope::VerificationMethod
+      && self
+        .verification_relationships()
+        .any(|method_ref| method_ref.is_referred() && method_ref.id() == method.id())
+    {
       return Err(Error::MethodInsertionError);
     }
     match scope {
